@@ -9,7 +9,7 @@ from sim.ctx import RunCtx, make_scheduler, gen_sched
 from sim import shrink as shr
 
 PROP = 'C09'
-QUICK_RUNS = 10000
+QUICK_RUNS = 14000
 THOROUGH_RUNS = 300000
 QUICK_WALL = 110
 THOROUGH_WALL = 1500
@@ -49,14 +49,14 @@ def gen_case(rng, tier, idx):
     spec = gen_pomdp_spec(rng)
     nS, nA, nO = spec['nS'], spec['nA'], spec['nO']
     u = rng.random()
-    if u < 0.90:
+    if u < 0.84:
         nN = rng.randint(1, 3)
         # non-degenerate initial node distribution when there is more than one node
         ini = _dy0(rng, nN, allow_zero=False) if rng.random() < 0.8 else _dy0(rng, nN)
         cfg = dict(what='exec', As=[_dy0(rng, nA) for _ in range(nN)],
                    Ns=[[[_dy0(rng, nN) for _ in range(nO)] for _ in range(nA)] for _ in range(nN)], ini=ini,
                    rollouts=rng.randint(1, 4), cap=rng.choice((2, 4, 8)), start=rng.choice([None] + list(range(nS))))
-    elif u < 0.97:
+    elif u < 0.96:
         cfg = dict(what='bpi', nodes=rng.randint(1, 3), iterations=rng.randint(2, 10), seed=rng.choice((0, 1, 2, 3, 17, 12345)))
     else:
         cfg = dict(what='ga', nodes=rng.randint(1, 2), iterations=rng.randint(1, 10), seed=rng.choice((0, 1, 5, 99)))
